@@ -263,52 +263,61 @@ def _removal_helpers(e: Engine):
 def r12(e: Engine, rep: Report):
     rep.tables.add('c01.REMOVAL_SITES')
     p = e.p
-    for f in p.functions.values():
-        if not f.module.name.startswith('slimta.queue') or \
-                f.module.name != 'slimta.queue':
-            continue
-        if f.cls is None or f.cls.qname != QUEUE:
-            continue
-        ctx = Ctx(f)
-        sites = []
-        for n in walk_own(f.node):
+    helpers = _removal_helpers(e)
+    c = e.p.cls(QUEUE)
+
+    def site_calls(fn_node):
+        out = []
+        for n in walk_own(fn_node):
             if not isinstance(n, ast.Call):
                 continue
             t = ast.unparse(n.func)
             if t in ('self._remove', 'self.store.remove'):
-                sites.append(n)
+                out.append(n)
             for a in n.args:
                 if isinstance(a, ast.Attribute) and ast.unparse(a) in (
                         'self._remove', 'self.store.remove'):
-                    sites.append(n)
-        if not sites:
+                    out.append(n)
+        return out
+    covered = set()          # id(call ast) of sites examined under a root
+    for root_q, row in sorted(REMOVAL_SITES.items()):
+        mname = root_q.rpartition('.')[2]
+        f = c.methods.get(mname)
+        if f is None:
             continue
-        rep.functions.add(f.qname)
-        row = REMOVAL_SITES.get(f.qname)
-        if row is None and f.name in _removal_helpers(e):
-            row = ('remove', [])      # part of the removal primitive
-        if row is None:
-            for n in sites:
-                rep.bad('R1.2', f.qname, 'removal site ' + ast.unparse(
-                    n.func), 'the stored message is removed from %s, which '
-                    'is not a final-disposition site' % f.qname,
-                    loc=f.loc(n))
-            continue
-        g = e.build(ctx)
+        ctx = Ctx(f, QUEUE)
+        # the root together with the private helpers extracted from it (but
+        # not into another table function, which is judged on its own)
+        others = {q.rpartition('.')[2] for q in REMOVAL_SITES} - {mname}
+        g = e.build(ctx, inline=e.inline_same_self(
+            deny=sorted(others | helpers | {'_pool_spawn', '_pool_run',
+                                            '_pool_imap', '_add_queued',
+                                            '_split_by_reply', '_bounce'})),
+            max_depth=4)
         fx = e.facts(g)
-        fid = g.entry.frame.id
+        rep.functions.add(f.qname)
         for cn in g.nodes:
-            if cn.kind != 'call' or cn.ast not in sites:
+            if cn.kind != 'call':
                 continue
+            t = ast.unparse(cn.ast.func)
+            is_site = t in ('self._remove', 'self.store.remove') or any(
+                isinstance(a, ast.Attribute) and ast.unparse(a) in (
+                    'self._remove', 'self.store.remove')
+                for a in cn.ast.args)
+            if not is_site:
+                continue
+            covered.add(id(cn.ast))
             rep.evaluations += 1
             st = fx.at(cn)
             if st is None:
                 continue
             missing = []
             for spec in row[1]:
-                # bind the placeholder to the local it stands for
                 atom = bind_atom(spec, f, g)
-                if atom is None or not holds(st, atom):
+                if isinstance(atom, list):
+                    if not any(holds(st, a) for a in atom):
+                        missing.append(spec)
+                elif atom is None or not holds(st, atom):
                     missing.append(spec)
             w = None
             if missing:
@@ -321,6 +330,23 @@ def r12(e: Engine, rep: Report):
                       % missing, loc=cn.loc(),
                       reason='guard %s dominates' % (row[1] or 'n/a'),
                       witness=w)
+    # who may remove: every removal site was seen under one of the roots
+    for mname, m in sorted(c.methods.items()):
+        for n in site_calls(m.node):
+            if id(n) in covered:
+                continue
+            if mname in helpers:
+                rep.evaluations += 1
+                rep.ok('R1.2', m.qname, 'removal inside the removal '
+                       'primitive', reason='%s is part of _remove; the '
+                       'guards are checked where _remove is called' % mname,
+                       loc=m.loc(n))
+                continue
+            rep.evaluations += 1
+            rep.bad('R1.2', m.qname, 'removal site ' + ast.unparse(n.func),
+                    'the stored message is removed from %s, which is not '
+                    '(part of) a final-disposition site' % m.qname,
+                    loc=m.loc(n))
 
 
 def bind_atom(spec: str, f, g):
@@ -343,28 +369,56 @@ def bind_atom(spec: str, f, g):
             return None
         spec = spec.replace('WAIT', '%s#%d' % (v, fid))
     if 'TEMPFAILS' in spec:
-        # the list that collects TransientRelayError results
-        v = None
-        for n in walk_own(f.node):
-            if isinstance(n, ast.If) and 'TransientRelayError' in \
-                    ast.unparse(n.test):
-                for s in n.body:
-                    for c in ast.walk(s):
-                        if isinstance(c, ast.Call) and \
-                                isinstance(c.func, ast.Attribute) and \
-                                c.func.attr == 'append' and \
-                                isinstance(c.func.value, ast.Name):
-                            v = c.func.value.id
-        if v is None:
+        # the collection the retried envelope is made from
+        alts = retry_sources(g)
+        if not alts:
             return None
-        spec = spec.replace('TEMPFAILS', '%s#%d' % (v, fid))
+        pol = not spec.strip().startswith('not ')
+        return [(pol, k) for k in alts]
     return parse_atom(spec)
+
+
+def retry_sources(g):
+    """canonical texts of the locals the envelope handed to _retry_later is
+    computed from (backward slice inside the calling function, parameters
+    excluded): `not <one of them>` is the "nothing left to retry" guard"""
+    out = []
+    for n in g.calls():
+        if not (isinstance(n.ast.func, ast.Attribute) and
+                n.ast.func.attr == '_retry_later' and len(n.ast.args) >= 2):
+            continue
+        fn = n.frame.ctx.func
+        want = {x.id for x in ast.walk(n.ast.args[1])
+                if isinstance(x, ast.Name)}
+        direct = set(want)
+        changed = True
+        while changed:
+            changed = False
+            for a in walk_own(fn.node):
+                if not isinstance(a, ast.Assign):
+                    continue
+                tn = {x.id for t in a.targets for x in ast.walk(t)
+                      if isinstance(x, ast.Name)}
+                if tn & want:
+                    new = {x.id for x in ast.walk(a.value)
+                           if isinstance(x, ast.Name)} - want
+                    if new:
+                        want |= new
+                        changed = True
+        for nm in sorted(want - direct - set(fn.params) - {'self', 'zip'}):
+            try:
+                out.append(canon(ast.Name(id=nm, ctx=ast.Load()), n.frame))
+            except Exception:
+                pass
+    return out
 
 
 # -------------------------------------------------------------------- R1.3
 def r13(e: Engine, rep: Report):
     ctx = e.method_ctx(QUEUE, '_retry_later')
-    g = e.build(ctx)
+    g = e.build(ctx, inline=e.inline_same_self(
+        deny=['_perm_fail', '_remove', '_add_queued', '_split_by_reply',
+              '_pool_spawn', '_pool_run', '_pool_imap']), max_depth=4)
     fx = e.facts(g)
     where = ctx.func.qname
     rep.functions.add(where)
@@ -564,10 +618,44 @@ def r15(e: Engine, rep: Report, K: Kinds, rule: str):
                    reason='no concatenation / JSON encoding of the set')
 
 
+PARTIAL_DENY = ['_perm_fail', '_retry_later', '_remove', '_split_by_reply',
+                '_pool_spawn', '_pool_run', '_pool_imap', '_add_queued',
+                '_bounce']
+
+
+def partial_graph(e: Engine, raises=None):
+    """_handle_partial_relay together with the helpers it was split into"""
+    ctx = e.method_ctx(QUEUE, '_handle_partial_relay')
+    kw = {} if raises is None else {'raises': raises}
+    return ctx, e.build(ctx, inline=e.inline_same_self(deny=PARTIAL_DENY),
+                        max_depth=4, **kw)
+
+
+def settled_paths(e: Engine, g):
+    """canonical paths of the container(s) whose content is handed to
+    _retry_later / set_recipients_delivered as the settled positions"""
+    out = set()
+    for n in g.calls():
+        nm = e.call_name(n)
+        a = None
+        if nm == '_retry_later' and len(n.ast.args) >= 4:
+            a = n.ast.args[3]
+        elif nm == '_retry_later':
+            for k in n.ast.keywords:
+                if k.arg == 'delivered':
+                    a = k.value
+        elif nm == 'set_recipients_delivered' and len(n.ast.args) >= 2:
+            a = n.ast.args[1]
+        if a is not None:
+            p = path_of(a, n.frame)
+            if p:
+                out.add(p)
+    return out
+
+
 # -------------------------------------------------------------------- R1.7
 def r17(e: Engine, rep: Report):
-    ctx = e.method_ctx(QUEUE, '_handle_partial_relay')
-    g = e.build(ctx)
+    ctx, g = partial_graph(e)
     where = ctx.func.qname
     rep.functions.add(where)
     # the per-recipient result variable: value position of the .items() loop
@@ -586,42 +674,61 @@ def r17(e: Engine, rep: Report):
                    (True, 'isinstance(%s, Reply)' % rv),
                    (True, 'isinstance(%s, PermanentRelayError)' % rv)]
     nsites = 0
+    kinds = set()
+    settled = settled_paths(e, g)
+    derived = common.derived_paths(g, {rv})
+
+    def judge(n, w, text, detail, reason):
+        # a witness that runs through a test of a value computed from the
+        # result (a tag the results were first mapped to) is not evidence:
+        # whether that path exists depends on values
+        op = common.opaque_tests(w, derived) if w else []
+        if op:
+            rep.error('R1.7 cannot be decided at %s: the path to this site '
+                      'depends on `%s`, computed from the result'
+                      % (n.loc(), ast.unparse(op[0].ast)))
+            return
+        rep.check(w is None, 'R1.7', where, text, detail, loc=n.loc(),
+                  reason=reason,
+                  witness=dataflow.render_path(w) if w else None)
     for n in g.nodes:
         if n.kind != 'call' or not isinstance(n.ast.func, ast.Attribute):
             continue
         recv = ast.unparse(n.ast.func.value)
+        rpath = path_of(n.ast.func.value, n.frame)
         nm = n.ast.func.attr
-        if nm == 'add' and recv == 'delivered' or (
-                nm in ('add', 'append') and 'deliver' in recv):
+        in_loop = any(sc.kind == 'loop' and sc.ast is loop.ast
+                      for sc in n.scopes)
+        if not in_loop:
+            continue
+        if nm in ('add', 'append') and (
+                rpath in settled or (not settled and 'deliver' in recv)):
             nsites += 1
+            kinds.add('settled')
             rep.evaluations += 1
             w = common.unguarded_path(e, g, n, settle_alts, start=loop)
-            rep.check(w is None, 'R1.7', where,
-                      'recipient marked settled only when delivered or '
-                      'failed for good',
-                      'a recipient can be marked delivered although its '
-                      'result is neither None, a Reply nor a permanent '
-                      'failure: it is dropped from every later attempt',
-                      loc=n.loc(), reason='guarded by None / Reply / '
-                      'PermanentRelayError',
-                      witness=dataflow.render_path(w) if w else None)
+            judge(n, w, 'recipient marked settled only when delivered or '
+                  'failed for good',
+                  'a recipient can be marked delivered although its '
+                  'result is neither None, a Reply nor a permanent '
+                  'failure: it is dropped from every later attempt',
+                  'guarded by None / Reply / PermanentRelayError')
         elif nm == 'append' and ('temp' in recv or 'perm' in recv):
             nsites += 1
+            kinds.add('temp' if 'temp' in recv else 'perm')
             rep.evaluations += 1
             cls = 'TransientRelayError' if 'temp' in recv \
                 else 'PermanentRelayError'
             w = common.unguarded_path(
                 e, g, n, [(True, 'isinstance(%s, %s)' % (rv, cls))],
                 start=loop)
-            rep.check(w is None, 'R1.7', where,
-                      '%s collects only %s results' % (recv, cls),
-                      'a result that is not a %s is filed under %s'
-                      % (cls, recv), loc=n.loc(),
-                      reason='guarded by isinstance(..., %s)' % cls,
-                      witness=dataflow.render_path(w) if w else None)
-    if nsites < 4:
+            judge(n, w, '%s collects only %s results' % (recv, cls),
+                  'a result that is not a %s is filed under %s'
+                  % (cls, recv), 'guarded by isinstance(..., %s)' % cls)
+    if kinds != {'settled', 'temp', 'perm'}:
         rep.error('anchor vanished: classification sites in '
-                  '_handle_partial_relay (%d < 4)' % nsites)
+                  '_handle_partial_relay (found %s of settled/temp/perm)'
+                  % sorted(kinds))
     # transient results must reach the retry list: the transient arm exists
     has_t = any(n.kind == 'test' and 'TransientRelayError' in
                 ast.unparse(n.ast) for n in g.of_kind('test'))
@@ -635,8 +742,7 @@ def r18(e: Engine, rep: Report):
     """Every recipient that was classified is acted on: both failure lists
     are examined on every path after the classification loop, whatever the
     other list led to."""
-    ctx = e.method_ctx(QUEUE, '_handle_partial_relay')
-    g = e.build(ctx, raises=lambda b, n, r: set())
+    ctx, g = partial_graph(e, raises=lambda b, n, r: set())
     where = ctx.func.qname
     loop = None
     for n in g.of_kind('iter'):
@@ -658,11 +764,19 @@ def r18(e: Engine, rep: Report):
     if not done or not filled:
         rep.error('anchor vanished: failure lists of _handle_partial_relay')
         return
+
+    def tested_path(t):
+        # `if xs:` / `if not xs:` / `if len(xs)`: the list that is looked at
+        a = t.ast
+        if isinstance(a, ast.Call) and isinstance(a.func, ast.Name) and \
+                a.func.id == 'len' and a.args:
+            a = a.args[0]
+        return path_of(a, t.frame)
     tests = {p: [t for t in g.of_kind('test')
-                 if path_of(t.ast, t.frame) == p] for p in filled}
+                 if tested_path(t) == p] for p in filled}
     after = dataflow.must_events_after(
-        g, lambda n: ['test:' + path_of(n.ast, n.frame)]
-        if n.kind == 'test' and path_of(n.ast, n.frame) in filled else [],
+        g, lambda n: ['test:' + tested_path(n)]
+        if n.kind == 'test' and tested_path(n) in filled else [],
         edge=c07.no_call_exc)
     st = after.get(done[0].id)
     for p, nm in sorted(filled.items()):
@@ -673,7 +787,7 @@ def r18(e: Engine, rep: Report):
             pth = dataflow.find_path(
                 g, done[0], lambda x: x is g.exit,
                 avoid=lambda x: x.kind == 'test' and
-                path_of(x.ast, x.frame) == p,
+                tested_path(x) == p,
                 edge_ok=lambda a, l, s: not isinstance(l, tuple))
             w = dataflow.render_path(pth, 16) if pth else None
         rep.check(ok, 'R1.8', where,
